@@ -13,7 +13,7 @@ import timesgen as tg
 PROP = "C18"
 RULE = ("passes (POD with real clock-drift tables: noaa14 2001, noaa11 1990, noaa9 1987; KLM; POD with correction disabled) "
         "with midnight / New Year / leap-day boundaries placed at chosen lines (incl. boundaries that the drift shift moves "
-        "across), gaps and first line numbers > 1; for each pass a random history of accessor calls (get_times, get_lonlat, "
+        "across), gaps and first line numbers > 1, records stored twice with as many later records absent; for each pass a random history of accessor calls (get_times, get_lonlat, "
         "create_counts_dataset, get_calibrated_channels, get_angles, meta read) triggers the metadata; stored metadata and "
         "dataset attrs are compared with the functions of the FINAL returned times. A case = (pass, history); non-trivial = "
         "distinct case with a day boundary inside the pass or missing lines")
@@ -80,6 +80,10 @@ def run(res, tier, seed):
             kind = rng.choice(["midnight", "midnight", "newyear", "plain", "leapday", "day366", "twosteps"])
             first = rng.choice([1, 1, 4, 25])
             gaps = [(rng.randrange(2, n - 2), rng.choice([1, 2, 6]))] if rng.random() < 0.6 else []
+            # a record stored twice and a later one absent: the number of records says nothing about completeness
+            repeated = rng.random() < 0.3
+            if repeated and rng.random() < 0.7:
+                first, gaps = 1, []
             nums = tg.line_numbers(rng, n, first, gaps)
             per = 500.0 if l1b.FMT[fmt]["res"] == "gac" else 1000.0 / 6
             k = n // 2
@@ -117,8 +121,16 @@ def run(res, tier, seed):
                 sc_ = 1e4 if fam == "klm" else 128.0
                 lines.append(dict(n=nn, year=y, doy=dd, ms=ms, prt=prt, ict=ict, space=space, words=l1b.const_words(fmt, 300),
                                   lats=[int(round(v * sc_)) for v in la], lons=[int(round(v * sc_)) for v in lo]))
+            rep_at = None
+            if repeated:
+                j = rng.randrange(3, n - 8)
+                w = rng.choice([1, 1, 2])
+                lines = lines[:j + w] + [dict(l) for l in lines[j:j + w]] + lines[j + w:]   # records j..j+w-1 twice
+                m = rng.randrange(j + 2 * w + 1, len(lines) - 2 - w)
+                del lines[m:m + w]                                                          # w later records absent
+                rep_at = (j, w, m)
             swapped = None
-            if rng.random() < 0.3 and n > 12:
+            if rng.random() < 0.3 and n > 12 and not repeated:
                 # two neighbouring records stored in reverse order (both survive the line-number sanitising)
                 j = rng.randrange(3, n - 3)
                 lines[j], lines[j + 1] = lines[j + 1], lines[j]
@@ -126,7 +138,8 @@ def run(res, tier, seed):
             data = l1b.build_file(fmt, sc, tg.dt_of(p["header"]), lines)
             hist = [rng.choice(OPS) for _ in range(rng.randint(1, 5))] + ["meta"]
             ctx = dict(fmt=fmt, spacecraft=sc, n=n, kind=kind, first=first, gaps=gaps, start=str(tg.dt_of(start)),
-                       adjust_clock_drift=drift, history=hist, seed=seed, records_swapped_at=swapped)
+                       adjust_clock_drift=drift, history=hist, seed=seed, records_swapped_at=swapped,
+                       records_repeated_at=rep_at)
             kw = dict(tle_dir=tle_dir, tle_name=tle_name, tle_thresh=40000, adjust_clock_drift=drift)
             try:
                 r = impl.open_reader(fmt, data, **kw)
